@@ -28,7 +28,7 @@ VARIANTS = [
     {'name': 'new-for-over-set', 'rule': 'C03.R3',
      'edits': [(CC, "        for group in self.get_titratable_groups() + self.get_ions():\n            version.calculate_desolvation(group)", "        for group in set(self.get_titratable_groups() + self.get_ions()):\n            version.calculate_desolvation(group)")]},
     {'name': 'set-passed-to-sink-param', 'rule': 'C03.R3',
-     'edits': [(CC, "                self.share_determinants(all_groups)", "                self.share_determinants(set(all_groups))")]},
+     'edits': [(CC, "                        self.share_determinants(same_sign)", "                        self.share_determinants(set(same_sign))")]},
     {'name': 'module-level-cache', 'rule': 'C03.R1',
      'edits': [(E, "def calculate_scale_factor(parameters, weight: float) -> float:", "_WEIGHT_CACHE = {}\n\n\ndef calculate_scale_factor(parameters, weight: float) -> float:"),
                (E, "    weight = min(1.0, weight)\n    weight = max(0.0, weight)\n    return weight\n\n\ndef calculate_pair_weight", "    weight = min(1.0, weight)\n    weight = max(0.0, weight)\n    _WEIGHT_CACHE[num_volume] = weight\n    return weight\n\n\ndef calculate_pair_weight")]},
